@@ -111,4 +111,14 @@ def rare_overrun(rng):
                 sup="s")
 
 
-FAMILIES = {"rare_overrun": rare_overrun, "blocking_tie": blocking_tie, "advance_mixed": advance_mixed, "fast_node": fast_node, "same_generation_pair": same_generation_pair, "slow_side_node": slow_side_node, "slow_producer": slow_producer, "long_sink": long_sink}
+def fast_chain(rng):
+    """Acyclic: a fast source feeding two slower consumers; every step of a consumer (from its first one on) consumes several messages.
+    Used for truncated records (max_records): the messages consumed by the recorded steps outnumber the recorded steps."""
+    P = rng.choice([8, 16])
+    return dict(nodes=[_n("a", 0, 2, 1, [0, 1]), _n("b", 1, 8, 1, [1, 2]), _n("sup", 2, P, 1, [1])],
+                conns=[_c("a", "b", window=2, delay=1, cdist=[0, 1]), _c("a", "sup", name="in_a", window=3, delay=1, cdist=[0, 1]),
+                       _c("b", "sup", window=1, delay=1, cdist=[0, 1])],
+                sup="sup")
+
+
+FAMILIES = {"fast_chain": fast_chain, "rare_overrun": rare_overrun, "blocking_tie": blocking_tie, "advance_mixed": advance_mixed, "fast_node": fast_node, "same_generation_pair": same_generation_pair, "slow_side_node": slow_side_node, "slow_producer": slow_producer, "long_sink": long_sink}
